@@ -11,7 +11,7 @@ FN = "statistics::collect_statistics"
 
 def run(ctx):
     F, R = ctx.facts, ctx.report
-    R.explanation = "LOOP-1: in collect_statistics every iteration calls next_message_slice exactly once and collect_statistic exactly once; table/flow clauses via the engine."
+    R.explanation = "LOOP-1: in collect_statistics every iteration calls next_message_slice exactly once and collect_statistic exactly once; table/flow clauses via the engine; CALL-R / ALG / DISP: the blocking reader the scan pulls from reads only through read_exact on its BufReader and delivers every complete message (shared with C07)."
     R.not_decided = ["FxHashMap semantics (trusted)", "order independence of merging (follows from commutativity of + and ||, argued not mechanised)"]
     b = F.body(FN)
     if b is None:
@@ -38,6 +38,17 @@ def run(ctx):
         if f and (f["path"].endswith("::next_message_slice") or f.get("name") == "collect_statistic"):
             R.violation("LOOP-1", FN + "|outside|" + f["path"], "%s is called outside the scan loop" % f["s"], function=FN)
     R.floor("LOOP-1", 2)
+    # the scan sees every message only if the reader it pulls from delivers every message: the blocking reader's
+    # read discipline (read_exact on the BufReader only; shared with C07) and its two-phase algebra / dispatch
+    from rules import lib_call
+    funcs = sorted(p for p, bb in F.bodies.items() if p.startswith("read::") and not bb["derived"] and "::tests::" not in p)
+    lib_call.check_read_exact(ctx, funcs, r"^std::io::Read$", r"^std::io::BufReader<")
+    R.floor("CALL-R", 2)
+    try:
+        from rules import lib_reader
+        lib_reader.check(ctx, "read")
+    except ImportError:
+        pass
     try:
         from rules import lib_stats
         lib_stats.check(ctx)
